@@ -7,8 +7,9 @@ sys.path.insert(0, os.path.join(V, "lib")); sys.path.insert(0, V)
 NOT_APPLICABLE = {}
 props = [json.loads(l)["id"] for l in open(os.path.join(V, "properties.jsonl"))]
 checks, na = [], []
+READY = set(open(os.path.join(V, "checks", "READY")).read().split()) if os.path.exists(os.path.join(V, "checks", "READY")) else set()
 for pid in props:
-    if not os.path.exists(os.path.join(V, "checks", pid + ".py")):
+    if pid not in READY or not os.path.exists(os.path.join(V, "checks", pid + ".py")):
         na.append({"property_id": pid, "reason": NOT_APPLICABLE.get(pid, "no check registered yet for this property (work in progress; the technique applies, see DESIGN.md §5)")})
         continue
     m = importlib.import_module("checks." + pid)
